@@ -328,7 +328,7 @@ func c09Batch(op string, id int) []vPoint {
 // a bare flush is then redundant ("X Y F" = "X YF"). RO = clean close + reopen (flushes the memtable, reloads files).
 func c09Ops(big bool) []string {
 	if !big {
-		return []string{"WR", "WE", "WB", "WNF", "WLF", "WRF", "WOF", "WEF", "WBF", "LC", "FC", "MO", "RO"}
+		return []string{"WR", "WE", "WNF", "WLF", "WRF", "WOF", "WEF", "WBF", "LC", "FC", "MO", "RO"}
 	}
 	return []string{"W4", "WN", "WL", "WR", "WO", "WE", "WB", "Wc", "We", "Wh", "W4F", "WNF", "WLF", "WRF", "WOF", "WEF", "WBF", "WcF",
 		"LC", "FC", "MO", "MF", "RO"}
@@ -346,6 +346,12 @@ func c09Apply(v *vShard, m vModel, op string, id int) error {
 			v.Flush()
 		}
 		return nil
+	}
+	if op == "RO" {
+		// Flush explicitly before the clean close: whether the rows a closing shard flushes land in an ordered or an
+		// out-of-order file is decided differently from run to run ("WBF WR RO" gives LL+0u or L+1u); both are legal
+		// layouts, but the set of explored layouts should not depend on the run.
+		v.Flush()
 	}
 	if op == "MO" || op == "MF" {
 		// The out-of-order merge's column writer (merge_performer.go columnWriter.write -> ColVal.AppendTimes on a
@@ -409,61 +415,83 @@ func c09TIdx(t int64) string {
 	return strconv.Itoa(int((t - vBase) / int64(time.Second)))
 }
 
+// c09Chunk is one series chunk of one file (the unit that carries the statistics the shortcut trusts).
+type c09Chunk struct {
+	File     string
+	Order    bool
+	Spans    string // "[1-2][3-4]"
+	Min, Max int64
+}
+
+// c09Chunks groups the segments into chunks, files in storage order, the chunks of a file in canonical order (by
+// their spans: series ids are handed out in scheduling order when one batch creates two series, so the order of the
+// chunks inside a file is not a property of the history).
+func c09Chunks(segs []c09Seg) []c09Chunk {
+	var out []c09Chunk
+	fileStart := 0
+	for i := 0; i < len(segs); {
+		j := i
+		c := c09Chunk{File: segs[i].File, Order: segs[i].Order, Min: segs[i].Min, Max: segs[i].Max}
+		for j < len(segs) && segs[j].File == segs[i].File && segs[j].Sid == segs[i].Sid {
+			if segs[j].Min < c.Min {
+				c.Min = segs[j].Min
+			}
+			if segs[j].Max > c.Max {
+				c.Max = segs[j].Max
+			}
+			c.Spans += fmt.Sprintf("[%s-%s]", c09TIdx(segs[j].Min), c09TIdx(segs[j].Max))
+			j++
+		}
+		if len(out) > 0 && out[len(out)-1].File != c.File {
+			fileStart = len(out)
+		}
+		out = append(out, c)
+		f := out[fileStart:]
+		sort.SliceStable(f, func(x, y int) bool { return f[x].Spans < f[y].Spans })
+		i = j
+	}
+	return out
+}
+
 // c09SegShape: per file the segment spans of each series chunk, e.g. "o{[1-2][3-4]|[1-2]}u{[1-1]}".
-func c09SegShape(segs []c09Seg) string {
+func c09SegShape(chunks []c09Chunk) string {
 	var b strings.Builder
-	lastFile, lastSid := "", uint64(0)
-	for _, s := range segs {
-		if s.File != lastFile {
-			if lastFile != "" {
+	for i, c := range chunks {
+		if i == 0 || chunks[i-1].File != c.File {
+			if i > 0 {
 				b.WriteString("}")
 			}
-			if s.Order {
+			if c.Order {
 				b.WriteString("o{")
 			} else {
 				b.WriteString("u{")
 			}
-			lastFile, lastSid = s.File, s.Sid
-		} else if s.Sid != lastSid {
+		} else {
 			b.WriteString("|")
-			lastSid = s.Sid
 		}
-		fmt.Fprintf(&b, "[%s-%s]", c09TIdx(s.Min), c09TIdx(s.Max))
+		b.WriteString(c.Spans)
 	}
-	if lastFile != "" {
+	if len(chunks) > 0 {
 		b.WriteString("}")
 	}
 	return b.String()
 }
 
-// c09Coverage classifies every stored chunk (one series in one file: the unit that carries the statistics the
-// shortcut trusts, ChunkMeta.allRowsInRange) against [start,end]: F fully covered (statistics may be used),
-// P partially covered (data must be read, segments outside the range skipped), N disjoint.
-func c09Coverage(segs []c09Seg, start, end int64) (pattern string, full, partial int) {
+// c09Coverage classifies every stored chunk against [start,end]: F fully covered (ChunkMeta.allRowsInRange: its
+// statistics may be used), P partially covered (data must be read, segments outside the range skipped), N disjoint.
+func c09Coverage(chunks []c09Chunk, start, end int64) (pattern string, full, partial int) {
 	var b strings.Builder
-	for i := 0; i < len(segs); {
-		j := i
-		min, max := segs[i].Min, segs[i].Max
-		for j < len(segs) && segs[j].File == segs[i].File && segs[j].Sid == segs[i].Sid {
-			if segs[j].Min < min {
-				min = segs[j].Min
-			}
-			if segs[j].Max > max {
-				max = segs[j].Max
-			}
-			j++
-		}
+	for _, c := range chunks {
 		switch {
-		case max < start || min > end:
+		case c.Max < start || c.Min > end:
 			b.WriteByte('N')
-		case start <= min && max <= end:
+		case start <= c.Min && c.Max <= end:
 			b.WriteByte('F')
 			full++
 		default:
 			b.WriteByte('P')
 			partial++
 		}
-		i = j
 	}
 	return b.String(), full, partial
 }
@@ -530,17 +558,18 @@ func c09Variants(level int) []c09Variant {
 		{Name: "byhost", ByHost: true},
 		{Name: "bucket2s", Bucket: 2},
 		{Name: "multi", Multi: true},
+		{Name: "byhost_desc", ByHost: true, Desc: true},
+		{Name: "filter_byhost", Filter: true, ByHost: true},
+		{Name: "bucket2s_desc", Bucket: 2, Desc: true},
 	}
 	if full {
 		vs = append(vs,
 			c09Variant{Name: "hint_desc", Hint: true, Desc: true},
 			c09Variant{Name: "filter_desc", Filter: true, Desc: true},
-			c09Variant{Name: "byhost_desc", ByHost: true, Desc: true},
-			c09Variant{Name: "bucket2s_desc", Bucket: 2, Desc: true},
 			c09Variant{Name: "bucket1s", Bucket: 1},
 			c09Variant{Name: "bucket3s", Bucket: 3},
 			c09Variant{Name: "hint_byhost", Hint: true, ByHost: true},
-			c09Variant{Name: "filter_byhost", Filter: true, ByHost: true},
+			c09Variant{Name: "hint_byhost_desc", Hint: true, ByHost: true, Desc: true},
 			c09Variant{Name: "bucket2s_byhost", Bucket: 2, ByHost: true},
 			c09Variant{Name: "hint_filter_bucket2s", Hint: true, Filter: true, Bucket: 2},
 			c09Variant{Name: "multi_hint", Multi: true, Hint: true},
@@ -934,9 +963,13 @@ func c09Diff(exp map[c09GroupKey][]vVal, got map[c09GroupKey]vVal) []string {
 
 // ---- per-state oracle ------------------------------------------------------------------------------
 
+// c09DevPrint: development aid (C09_DEV_OPS without C09_DEV_Q): print every mismatch of one state instead of recording it.
+var c09DevPrint func(variant, rng string, c c09AggField, diffs []string)
+
 type c09Case struct {
 	Ops   []string `json:"ops"`
 	Query string   `json:"query,omitempty"`
+	Level int      `json:"level"` // query-set level of the state check (a replay runs the same statements in the same order)
 }
 
 type c09State struct {
@@ -946,33 +979,62 @@ type c09State struct {
 	level    int // query-set level
 }
 
-// c09Kind names the violation by what differs: the aggregate, and whether the shortcut was eligible. One defect has
-// its own kind: first/last over several series answering with the (correct) first/last value of the wrong series,
-// i.e. the per-series candidates were compared on wrong timestamps.
-func c09Kind(va c09Variant, c c09AggField, rows []c09Row, exp map[c09GroupKey][]vVal, got map[c09GroupKey]vVal) string {
+// c09Kind classifies a mismatch. Four defect classes have their own kind (the classification uses only the
+// statement's shape, the state's cross-generation flag and the two answers):
+//
+//	<call>_value_of_wrong_series            first/last over several series answered with the first/last value of the
+//	                                        wrong series (per-series candidates compared on wrong timestamps)
+//	first_last_under_order_by_time_desc     first/last of a statement with ORDER BY time DESC
+//	duplicate_rows_under_order_by_time_desc count/sum/mean/min/max of a statement with ORDER BY time DESC in a state whose
+//	                                        history overwrote a key across flush generations
+//	group_missing_after_filter_group_by_tag field filter + GROUP BY tag: groups are missing from the answer, the groups that
+//	                                        are present agree
+//
+// everything else: <call>_<preagg_path|rows_path>_mismatch.
+func c09Kind(va c09Variant, c c09AggField, crossGen bool, rows []c09Row, exp map[c09GroupKey][]vVal, got map[c09GroupKey]vVal) string {
 	path := "rows_path"
 	if va.lenient() {
 		path = "preagg_path"
 	}
-	if (c.Agg == "first" || c.Agg == "last") && !va.ByHost {
+	admissible := func(k c09GroupKey, g vVal) bool {
+		for _, cv := range exp[k] {
+			if c09SameVal(cv, g) {
+				return true
+			}
+		}
+		return false
+	}
+	isFL := c.Agg == "first" || c.Agg == "last"
+	switch {
+	case va.Desc && isFL:
+		return "first_last_under_order_by_time_desc"
+	case va.Desc && crossGen:
+		return "duplicate_rows_under_order_by_time_desc"
+	}
+	if va.Filter && va.ByHost && len(got) < len(exp) {
+		subset := true
+		for k, g := range got {
+			subset = subset && admissible(k, g)
+		}
+		if subset {
+			return "group_missing_after_filter_group_by_tag"
+		}
+	}
+	if isFL && !va.ByHost && len(got) == len(exp) {
 		perHost := va
 		perHost.ByHost = true
+		hostVals := c09Expected(rows, perHost, c)
 		other := true
 		for k, g := range got {
-			cands, ok := exp[k]
-			if !ok {
+			if _, ok := exp[k]; !ok {
 				other = false
 				break
 			}
-			hit := false
-			for _, cv := range cands {
-				hit = hit || c09SameVal(cv, g)
-			}
-			if hit {
+			if admissible(k, g) {
 				continue
 			}
 			found := false
-			for hk, hv := range c09Expected(rows, perHost, c) {
+			for hk, hv := range hostVals {
 				if hk.Bucket != k.Bucket {
 					continue
 				}
@@ -982,7 +1044,7 @@ func c09Kind(va c09Variant, c c09AggField, rows []c09Row, exp map[c09GroupKey][]
 			}
 			other = other && found
 		}
-		if other && len(got) == len(exp) {
+		if other {
 			return fmt.Sprintf("%s_%s_value_of_wrong_series", c.Agg, path)
 		}
 	}
@@ -997,7 +1059,12 @@ func c09CheckState(rep *kit.Report, v *vShard, st c09State) (failed bool) {
 		return true
 	}
 	mem := strings.HasSuffix(st.layout, "mem")
-	shape := vLayoutShape(st.layout) + " " + c09SegShape(segs)
+	chunks := c09Chunks(segs)
+	shape := vLayoutShape(st.layout) + " " + c09SegShape(chunks)
+	if kit.Getenv("C09_SHAPES", "") != "" { // development aid: print the physical shape of every state
+		fmt.Printf("S %s | %s | %s\n", key, shape, st.layout)
+		return false
+	}
 	level := st.level
 	if len(segs) == 0 {
 		level = 0
@@ -1017,7 +1084,7 @@ func c09CheckState(rep *kit.Report, v *vShard, st c09State) (failed bool) {
 			return true
 		}
 		start, end := r.bounds()
-		pattern, nFull, nPartial := c09Coverage(segs, start, end)
+		pattern, nFull, nPartial := c09Coverage(chunks, start, end)
 		nontrivial := nFull > 0 && (nPartial > 0 || mem)
 		stmtRows, err := c09StmtRows(v, r, false)
 		if err != nil {
@@ -1072,7 +1139,7 @@ func c09CheckState(rep *kit.Report, v *vShard, st c09State) (failed bool) {
 				series, err := c09Select(v, q)
 				rep.Count("statements", 1)
 				if err != nil {
-					rep.Violation("query_error", key+" | "+q, err.Error(), c09Case{Ops: st.hist, Query: q})
+					rep.Violation("query_error", key+" | "+q, err.Error(), c09Case{Ops: st.hist, Query: q, Level: st.level})
 					nViol++
 					continue
 				}
@@ -1085,16 +1152,17 @@ func c09CheckState(rep *kit.Report, v *vShard, st c09State) (failed bool) {
 					if nontrivial {
 						rep.DistinctNontrivial(kit.Hash(shape, pattern, c.Agg, c.Field, va.Name, fmt.Sprint(mem)))
 					}
+					if len(diffs) > 0 && c09DevPrint != nil {
+						c09DevPrint(va.Name, r.String(), c, diffs)
+						continue
+					}
 					if len(diffs) > 0 {
 						nViol++
-						rep.Violation(c09Kind(va, c, use, exp, got), key+" | "+q,
+						rep.Violation(c09Kind(va, c, st.crossGen, use, exp, got), key+" | "+q,
 							fmt.Sprintf("%s(%s): %s; layout %s; chunks covered %s mem=%v; rows %s", c.Agg, c.Field,
 								strings.Join(diffs, "; "), shape, pattern, mem, c09FmtRows(use)),
-							c09Case{Ops: st.hist, Query: q})
+							c09Case{Ops: st.hist, Query: q, Level: st.level})
 					}
-				}
-				if nViol > 40 {
-					return true // enough evidence for this state
 				}
 			}
 		}
@@ -1197,10 +1265,18 @@ func TestVerifC09(t *testing.T) {
 			t.Fatal(err)
 		}
 		last := len(c.Ops) - 1
-		c09RunHistory(rep, vMkdir(scratch, "replay"), c.Ops, func(i int) (bool, int) { return i == last, 2 })
+		c09RunHistory(rep, vMkdir(scratch, "replay"), c.Ops, func(i int) (bool, int) { return i == last, c.Level })
 		return
 	}
 	if dev := kit.Getenv("C09_DEV_OPS", ""); dev != "" { // development aid: print the answers of statements on one layout
+		if kit.Getenv("C09_DEV_Q", "") == "" {
+			c09DevPrint = func(variant, rng string, c c09AggField, diffs []string) {
+				fmt.Printf("DEV %-22s %-8s %s(%s): %s\n", variant, rng, c.Agg, c.Field, strings.Join(diffs, "; "))
+			}
+			last := len(strings.Fields(dev)) - 1
+			c09RunHistory(rep, vMkdir(scratch, "dev"), strings.Fields(dev), func(i int) (bool, int) { return i == last, 2 })
+			return
+		}
 		c09RunHistory(rep, vMkdir(scratch, "dev"), strings.Fields(dev), func(i int) (bool, int) {
 			if i == len(strings.Fields(dev))-1 {
 				for _, q := range strings.Split(kit.Getenv("C09_DEV_Q", ""), ";") {
